@@ -158,6 +158,8 @@ def r2_scoped_id(c, facts):
             v = const_bool_arg(t, 2) if len(t['args']) > 2 else None
             if v == want:
                 c.ok(R, {'fn': q, 'scoped': v == '1'})
+            elif len(t['args']) <= 2:
+                c.bad(R, '%s:node_identifier-without-scoped-flag' % q.split('::')[-1], 'node_identifier no longer takes the flag that tells a rec (named per scope of evaluation) from a declaration (named once): %s' % ('two instantiations of one rec alias' if want == '1' else 'a recursive declaration used from two scopes gets two names'))
             elif v is None and want == '1':
                 # a computed flag: leaving the scope out is right only for an expression whose value does not depend on where it
                 # is evaluated - it mentions no binder at all (a parameter *or* the binder of an enclosing rec, whose value is the
@@ -300,6 +302,10 @@ def r3_cut_agree(c, facts):
     if res2 is None:
         c.bad(R, 'check_recursion:no-predicate', 'check_recursion no longer rejects non-schema recursion')
         return
+    from absint import UNK as _UNK
+    undecided = sorted(t for t, v in res2.items() if v not in (TRUE, FALSE))
+    if undecided:
+        c.bad(R, 'check_recursion:verdict-not-a-function-of-the-tag:%s' % ','.join(undecided), 'whether check_recursion rejects a recursion of kind %s depends on something besides its tag (where the rec stands, what surrounds it): a recursion that is not a schema is accepted in some places, and nothing checks it again' % undecided)
     if res1.get('Var') == TRUE or res2.get('Var') == FALSE:
         c.bad(R, 'unresolved-tag-treated-as-cut-point', 'a definition whose tag is still a variable is treated as a referential (schema) node: a cycle of plain aliases is accepted and emitted as components that only refer to each other')
     else:
@@ -606,6 +612,8 @@ def r13_export_all(c, facts, rule='C09.R13'):
 
 
 def run(c, facts):
+    import inferrules as _I9
+    c.run(lambda c: _I9.tag_rec(c, facts, c.rule('C09.R16', 'TAG-REC (shared C07.R1): occurs() descends into every nested tag, so a cycle through properties that has no schema to cut at is rejected, not looped on')))
     c.run(r13_export_all, facts)
     c.run(r15_inline_atomic, facts)
     import c14 as _c14
